@@ -1,11 +1,6 @@
 package c18
 
 import (
-	"encoding/json"
-	"fmt"
-	"os"
-	"path/filepath"
-	"sync"
 	"testing"
 
 	"verifharness/vkit"
@@ -15,31 +10,14 @@ import (
 // are decoded into (a, b, rule) and judged by the same judge as the generated cases (totality + limit contract under the
 // default MaxInputLength). A failing input is written as a JSON replay file for ./run C18 --replay.
 
-var (
-	fuzzOnce sync.Once
-	fuzzRun  *vkit.Run
-)
-
 func fuzzJudge(t *testing.T, pkg string, a, b []byte, rule int) {
 	if len(a) > 64<<10 || len(b) > 64<<10 {
 		return
 	}
-	fuzzOnce.Do(func() { fuzzRun = vkit.Start("C18") })
-	w := fuzzRun.NewW()
+	w := vkit.FuzzW("C18")
 	c := Case{Pkg: pkg, A: vkit.B(a), B: vkit.B(b), Rule: rule, Limit: -1}
 	judge(c, w)
-	if class, detail, ok := w.FirstFailure(); ok {
-		dir := os.Getenv("VERIF_REPLAY_DIR")
-		if dir == "" {
-			dir = "/verif/replays"
-		}
-		_ = os.MkdirAll(dir, 0o755)
-		cj, _ := json.Marshal(c)
-		path := filepath.Join(dir, fmt.Sprintf("C18-fuzz-%s-%016x.json", pkg, vkit.Hash64(string(cj))))
-		body, _ := json.MarshalIndent(map[string]any{"property": "C18", "class": class, "detail": detail, "case": json.RawMessage(cj), "found_by": "native fuzzing"}, "", " ")
-		_ = os.WriteFile(path, body, 0o644)
-		t.Fatalf("\nVIOLATION property=C18 replay=%s\n  class=%s\n  %s", path, class, detail)
-	}
+	vkit.FuzzReport(t, "C18", w, c)
 }
 
 func addSeeds(f *testing.F, pkg string) {
